@@ -48,6 +48,8 @@ uint64_t plan_shape (const J &plan) ;
 uint64_t sub_seed (uint64_t seed, const char *profile, uint64_t idx) ;
 void add_owned (Verdict &v, const std::string &prop, const Result &r, const std::map<std::string, std::string> &owned) ;
 J plan_skeleton (const char *profile, uint64_t seed, uint64_t idx) ;
+// initial-memory differential: the plan once more on different initial memory (fresh heap blocks / unused stack); results and file bytes must not change
+void memory_differential (Verdict &v, const char *prop, const J &plan, const Result &r0) ;
 
 // generator building blocks
 struct GenCtx
